@@ -66,12 +66,12 @@ CLAIMED = {
    note='thread_local and std::atomic read as plain variables (one thread\'s view). NOT covered and not expressible by contracts here: the schedule half of the property -- no two live threads share a stack under every interleaving, reuse of stacks across thread exit, exit-time freeing (nifty counter). memory_stack abstract (unit mstack).',
    ref='8 (C14)'),
  'C15': dict(
-   text='Proof: debug_handle_memory_leak calls the registered leak handler exactly once with the given amount; memory_pool<node_pool> allocator_traits allocate_node/deallocate_node call on_allocate / on_deallocate with the same quantity, only after a successful allocation.',
-   note='Thin: object_leak_checker constructor/destructor/move and the global (stateless) checker are not yet under contract; listed in evidence under functions_under_contract only as far as proved.',
+   text='Proof: object_leak_checker (constructor zero; on_allocate/on_deallocate move the net count by exactly the size; destructor reports exactly once with the exact net amount iff it is non-zero; move constructor / move assignment transfer the count and zero the source), the process-wide checker of the low-level allocators (global_leak_checker_impl counter: the LAST counter object to die reports the net once iff non-zero; lowlevel_allocator::allocate_node / deallocate_node book the same actual size, only on success), leak handler forwarding (debug_handle_memory_leak, lowlevel_allocator_leak_handler), memory_pool traits: allocate_node/deallocate_node and allocate_array/deallocate_array book the same expression of the same arguments on both sides, only after a successful allocation.',
+   note='std::atomic counters read sequentially; memory_pool_collection and memory_stack traits not covered; history-level "net = sum over the history" is the paper induction over these step contracts.',
    ref='8 (C15)'),
  'C16': dict(
-   text='Proof: debug_handle_invalid_ptr calls the registered invalid-pointer handler exactly once with the offending pointer and then stops the program before returning to the caller (so no state update follows a report).',
-   note='Thin: the individual checks in small_free_memory_list::deallocate, ordered_free_memory_list (double free), memory_stack::unwind and the LIFO block sources are not yet under contract.',
+   text='Proof, with the invalid-pointer handler modelled as non-returning (the default handler aborts) and carrying the precondition "the release is invalid AND the allocator state is still the entry state": small_free_memory_list::deallocate (pointer in no chunk / not on a node boundary / already free under double-free checking: never reaches the end of the function, reported before capacity_ or the chunk\'s free chain change; a valid release is never reported and returns exactly that node), chunk::from and from_chunk (a chunk owns exactly [list_memory, list_memory + no_nodes*node_size); one-past-the-end is foreign), memory_stack::unwind (marker with a block index above the top block, or above the top in the same block: reported before the stack or arena change; valid markers never reported), static_block_allocator::deallocate_block (only the most recent block is taken back; anything else is reported before cur_ moves), debug_handle_invalid_ptr forwards to the registered handler exactly once.',
+   note='find_chunk_impl (list traversal; its completeness and termination) and chunk::contains are abstract in the deallocate proof; node sizes from an enumerated family (parametric-bounded). Not covered: ordered_free_memory_list double-free detection (find_pos / find_pos_interval are abstract in the ordered-list proofs), virtual_block_allocator and fixed_block_allocator deallocate_block. A user handler that returns is outside the model.',
    ref='8 (C16)'),
  'C17': dict(
    text='Proof (configurations base/dbg8/dbg16): debug_fill, debug_is_filled (loop contract: returns the FIRST differing byte), debug_fill_new, debug_fill_internal under contract; debug_fill_free checked through harness-encoded contracts: a corrupted fence byte is always reported with the node, its size and the first corrupted byte of that fence; intact fences are never reported whatever was written in bounds; free-list allocate/deallocate carry the new/freed patterns on every byte but the link word.',
